@@ -75,6 +75,33 @@ def mutants_of_line(ln):
         v = int(m.group(1))
         if v <= 64 and "[" not in ln[max(0, m.start() - 1):m.start()]:
             out.append(("int:%d->%d" % (v, v + 1), ln[:m.start()] + str(v + 1) + ln[m.end():]))
+    # --- second operator set (sub-expression level)
+    for m in re.finditer(r"(?<![!\w])((?:[\w\.\*]+)\.contains\(&?\*?\w+\))", ln):
+        out.append(("sub:negate-contains", ln[:m.start()] + "!" + m.group(1) + ln[m.end():]))
+    for m in re.finditer(r"!((?:[\w\.\*]+)\.contains\()", ln):
+        out.append(("sub:drop-not-contains", ln[:m.start()] + m.group(1) + ln[m.end():]))
+    for a, b in (("Pressed(", "Released("), ("Released(", "Pressed(")):
+        for m in re.finditer(r"\b" + re.escape(a), ln):
+            out.append(("sub:%s->%s" % (a[:-1], b[:-1]), ln[:m.start()] + b + ln[m.end():]))
+    for a, b in ((".last()", ".first()"), (".first()", ".last()"), (".pass_through_keys", ".mapped_output_keys"), (".mapped_output_keys", ".pass_through_keys"),
+                 (".from.", ".to."), (".to.", ".from."), ("break;", "continue;"), ("ResultingRepeat::Disabled", "ResultingRepeat::NoChange"), ("ResultingRepeat::NoChange", "ResultingRepeat::Disabled"),
+                 ("WorkingRepeat::Idle", "working_repeat"), ("Next::Busy", "Next::End"), ("Next::End", "Next::Busy")):
+        for m in re.finditer(re.escape(a), ln):
+            new_ln = ln[:m.start()] + b + ln[m.end():]
+            if a == "WorkingRepeat::Idle" and "=>" in ln:
+                continue
+            out.append(("sub:%s->%s" % (a, b), new_ln))
+    m = re.match(r"^(\s*(?:else )?if )(.+?) && (.+)( \{\s*)$", ln)
+    if m and " let " not in ln:
+        out.append(("sub:drop-left-conjunct", m.group(1) + m.group(3) + m.group(4)))
+        out.append(("sub:drop-right-conjunct", m.group(1) + m.group(2) + m.group(4)))
+    m = re.match(r"^(\s*(?:else )?if )(.+?) \|\| (.+)( \{\s*)$", ln)
+    if m and " let " not in ln:
+        out.append(("sub:drop-left-disjunct", m.group(1) + m.group(3) + m.group(4)))
+        out.append(("sub:drop-right-disjunct", m.group(1) + m.group(2) + m.group(4)))
+    m = re.match(r"^(\s*\w[\w:]*\()(&?(?:mut )?[\w\.\*]+), (&?(?:mut )?[\w\.\*]+)(\).*)$", ln)
+    if m and m.group(2) != m.group(3):
+        out.append(("sub:swap-args", m.group(1) + m.group(3) + ", " + m.group(2) + m.group(4)))
     if re.match(r"^\s*[\w\.\*\[\]\(\)&]+(\.push|\.remove|\.retain|\.insert|\.append|\.extend|\.clear)\(.*\);\s*$", ln) or re.match(r"^\s*(break|continue);\s*$", ln) \
             or re.match(r"^\s*[\w\.\*\[\]]+ (=|\+=|-=) [^=].*;\s*$", ln):
         out.append(("stmt:deleted", re.match(r"^\s*", ln).group(0) + "// (deleted)"))
